@@ -157,6 +157,29 @@ func runC12(w *mon.W) {
 			u := fibWord(2 + r.Intn(30))
 			s = strings.Repeat(u, n/len(u)+1)[:n]
 		}
+		if i%9 == 8 {
+			// byte strings that are valid multi-byte UTF-8: the order that counts is still the order of bytes
+			kind = "multi-byte-utf8"
+			runes := []rune("éèабλμ漢字🧬ÿĀa")
+			m := 1 + r.Intn(40)
+			if r.Intn(3) == 0 {
+				m = 1 + r.Intn(2000)
+			}
+			var sb strings.Builder
+			k := 2 + r.Intn(4)
+			for j := 0; j < m; j++ {
+				sb.WriteRune(runes[r.Intn(k)+r.Intn(len(runes)-k+1)*0])
+			}
+			s = sb.String()
+			if r.Intn(2) == 0 {
+				sb.Reset()
+				for j := 0; j < m; j++ {
+					sb.WriteRune(runes[r.Intn(len(runes))])
+				}
+				s = sb.String()
+			}
+			n = len(s)
+		}
 		w.Add("structured_"+kind, 1)
 		w.Max("max_length", int64(len(s)))
 		w.Begin(id, s)
